@@ -158,6 +158,23 @@ CHECKS["C14"] = _core("C14", "every / sampled sequence of 2, 3 and 6 container a
                       "(MC_KotoCore.tla: OneEntryPerKey, NoDangling in every configuration, MapKeepsInsertionOrder and "
                       "StoreOnlyGrows on every step)", "DESIGN.md §5 C14",
                       "The machine's store is the abstract heap (DESIGN's Heap.tla is realised as KotoCore's store plus MC_KotoCore).")
+CHECKS["C15"] = dict(
+    category="model_checking",
+    text="Strings.tla defines strings as code point sequences with their UTF-8 bytes and grapheme clusters, and on them every "
+         "documented string operation (byte indexing and slicing, chars, char_indices, bytes, size, lines, split by pattern and by "
+         "function, replace, contains/starts_with/ends_with, strip_prefix/suffix, trim variants, case mapping, repeat, to_number, "
+         "format options for strings and integers, escape codes). TLC enumerates every string over mixed-width alphabets up to the "
+         "length bound with every argument from before to beyond the bounds, checks the property's laws on the definitions "
+         "(chars re-join, split re-joins with the pattern, char_indices slice to the clusters, field width), and prints one "
+         "prediction per case; each case is run on the runtime with the subject string built as a literal, from escapes, as a "
+         "slice of a larger buffer and as a slice of a buffer beyond 64 KiB, and compared byte for byte; every returned string "
+         "must be valid UTF-8; a panic is attributed to its case by bisection.",
+    design_ref="DESIGN.md §5 C15",
+    note="Not decided (valid text or an error required): slices reaching outside the string, empty split/replace patterns, radix "
+         "or zero padding of negative numbers, to_number on texts the documentation does not classify, float values. TLC found that "
+         "the width law cannot hold for values starting with a combining mark (it merges with the fill).",
+    technique="TLC-enumerated cases with predictions from Strings.tla (laws asserted on the definitions) replayed into the runtime",
+    engine="strings")
 CHECKS["C16"] = _core("C16", "7 hint positions x 21 hint names x 19 values (objects with @type/@base chains included), each predicted and "
                       "run with enable_type_checks on and off (the machine has a `checks` switch: hints on let/for/argument/return/"
                       "yield are skipped when off, match and catch patterns keep selecting), plus ordinary programs compiled with "
@@ -240,6 +257,8 @@ def main():
              "kind_free_text": "TLA+ specification of the VM's control state; hook events of real executions are folded through its actions (Trace_KotoVm.tla)"},
             {"name": "session", "path": "spec/Session.tla", "serves_properties": ["C07"],
              "kind_free_text": "TLA+ state machine of one embedding instance; TLC enumerates operation histories that are replayed on koto::Koto"},
+            {"name": "strings", "path": "spec/Strings.tla", "serves_properties": ["C15"],
+             "kind_free_text": "TLA+ definitions of string operations on code points, UTF-8 bytes and grapheme clusters; TLC enumerates cases and predicts results"},
             {"name": "format", "path": "spec/Format.tla", "serves_properties": ["C11"],
              "kind_free_text": "TLA+ statement of Format as a stuttering, idempotent step; recorded format runs are validated against it"},
             {"name": "blocks", "path": "spec/Blocks.tla", "serves_properties": ["C10"],
